@@ -575,6 +575,12 @@ class Sym:
                 return Val(N("trunc", (v.n,), ty[0]), ty)
             return Val(N("sext" if s0 else "zext", (v.n,), ty[0]), ty)
         if k == "un":
+            if e[1] == "-" and e[2][0] == "lit":
+                # `-2147483648i32`: the negation of a literal is a literal (rustc accepts the minimum value this way)
+                lv = self.lit(e[2][1])
+                if lv.ty is None:
+                    return Val(None, None, -lv.lit)
+                return Val(const(-lv.n.k, lv.ty[0]), lv.ty)
             v = self.run(e[2])
             if e[1] == "-":
                 if v.ty is None:
